@@ -7,14 +7,20 @@ package dsstate
 // ---- assumed: go-datastore as a finite map (ghost), written keys tracked ----
 //@ ghost var dstore map[ds.Key][]byte
 //@ ghost var written set[ds.Key]
+// putN / delN: Put / Delete calls issued to the WRITE side (for a batching state that is the open batch, which the
+// read side does not see until it is committed)
+//@ ghost var putN int
+//@ ghost var delN int
 
 //@ extern ds.Write.Put(key, value)
+//@   counts putN when true
 //@   ensures err == nil ==> haskey(dstore, key) && dstore[key] == value && in(key, written)
 //@   ensures err == nil ==> forall k ds.Key :: k != key ==> (haskey(dstore, k) <==> haskey(old(dstore), k)) && dstore[k] == old(dstore)[k] && (in(k, written) <==> in(k, old(written)))
 //@   ensures err != nil ==> dstore == old(dstore) && written == old(written)
 //@   modifies dstore, written
 
 //@ extern ds.Write.Delete(key)
+//@   counts delN when true
 //@   ensures err == nil ==> !haskey(dstore, key) && (forall k ds.Key :: k != key ==> (haskey(dstore, k) <==> haskey(old(dstore), k)) && dstore[k] == old(dstore)[k])
 //@   ensures err != nil ==> dstore == old(dstore)
 //@   ensures err == ds.ErrNotFound ==> !haskey(old(dstore), key)
@@ -47,19 +53,22 @@ package dsstate
 // ---- C01: one operation changes exactly the entry of its CID ----
 // "pin inserts or replaces the entry for its CID"
 //@ func (st *State) Add
-//@   property C01
+//@   property C01 C02
+//@   ensures [reaches-the-write-side] err == nil ==> putN == old(putN) + 1
 //@   ensures err == nil ==> haskey(dstore, keyOf(st, c.Cid)) && dstore[keyOf(st, c.Cid)] == enc(*c)
 //@   ensures err == nil ==> forall k ds.Key :: k != keyOf(st, c.Cid) ==> (haskey(dstore, k) <==> haskey(old(dstore), k)) && dstore[k] == old(dstore)[k]
 //@   ensures err != nil ==> dstore == old(dstore)
-//@   modifies dstore, written
+//@   modifies dstore, written, putN
 
 // "unpin deletes it" (an absent CID: unchanged, nil)
 //@ func (st *State) Rm
-//@   property C01
+//@   property C01 C02
+// whatever the read side says (it may lag behind an open batch), an accepted removal is issued to the write side
+//@   ensures [reaches-the-write-side] err == nil ==> delN == old(delN) + 1
 //@   ensures err == nil ==> !haskey(dstore, keyOf(st, c))
 //@   ensures forall k ds.Key :: k != keyOf(st, c) ==> (haskey(dstore, k) <==> haskey(old(dstore), k)) && dstore[k] == old(dstore)[k]
 //@   ensures err != nil ==> dstore == old(dstore)
-//@   modifies dstore
+//@   modifies dstore, delN
 
 // the msgpack decoder decodes INTO its destination and reuses the byte slices it finds there: an entry
 // decodes to exactly what was encoded (and does not alias a value already handed to the datastore)
@@ -76,4 +85,4 @@ package dsstate
 //@   ensures [writes-stay-in-namespace] forall k ds.Key :: in(k, written) ==> inNS(st, k)
 //@   loop 1 (for)
 //@     invariant forall k ds.Key :: in(k, written) ==> inNS(st, k)
-//@   modifies dstore, written, heap(serialEntry)
+//@   modifies dstore, written, putN, heap(serialEntry)
